@@ -595,6 +595,9 @@ func lsSelfTest() error {
 	if err := lsSharedSelfTest(); err != nil {
 		return err
 	}
+	if err := lsHeldHelperSelfTest(); err != nil {
+		return err
+	}
 	base, err := lsRunSnippet(lsSelfBase)
 	if err != nil {
 		return err
@@ -719,6 +722,95 @@ func lsSelfTest() error {
 		}
 		if err := m.check(o); err != nil {
 			return fmt.Errorf("mutant %q: %v", m.name, err)
+		}
+	}
+	return nil
+}
+
+
+// ---------------------------------------------------------------------------------------------------
+// lock-held helpers (findHeldHelpers / inlineHeld): a helper that takes no lock and is only ever called with the lock of its
+// receiver's instance held is walked in place; one bare call site, a method value or a `go` statement puts it back on its own
+// ---------------------------------------------------------------------------------------------------
+
+const lsHeldSrc = `package p
+
+import "sync"
+
+type Reg struct {
+	mu     sync.RWMutex
+	byName map[string]map[string]int
+}
+
+func (r *Reg) lockedGet(a, b string) (int, bool) {
+	m, ok := r.byName[a]
+	if !ok {
+		return 0, false
+	}
+	v, ok := m[b]
+	return v, ok
+}
+
+func (r *Reg) Get(a, b string) int {
+	r.mu.RLock()
+	defer r.mu.RUnlock()
+	v, _ := r.lockedGet(a, b)
+	return v
+}
+
+func (x *Reg) Has(a, b string) bool {
+	x.mu.RLock()
+	_, ok := x.lockedGet(a, b)
+	x.mu.RUnlock()
+	return ok
+}
+`
+
+func lsHeldHelperSelfTest() error {
+	run := func(src string) (*lsOut, error) {
+		return lsAnalyze("m", []lsTarget{{"", "Reg", []string{"byName"}}}, map[string]map[string]string{"": {"p.go": src}})
+	}
+	base, err := run(lsHeldSrc)
+	if err != nil {
+		return err
+	}
+	n := 0
+	for _, a := range base.accs {
+		if a.fn == "p.Reg.lockedGet" {
+			return fmt.Errorf("held helper: the helper was walked on its own: %+v", a)
+		}
+		if a.unknown || len(a.locks) != 1 {
+			return fmt.Errorf("held helper: access not guarded in the base: %+v", a)
+		}
+		if a.via == ">Reg.lockedGet" {
+			n++
+		}
+	}
+	if n < 2 || len(lsFind(base, "p.Reg.Get", "byName", "", "")) == 0 || len(lsFind(base, "p.Reg.Has", "byName", "", "")) == 0 {
+		return fmt.Errorf("held helper: the helper's accesses are not listed under both callers (%d in place)", n)
+	}
+	mutants := []struct{ name, old, new string }{
+		{"one call site without the lock", "\tx.mu.RLock()\n\t_, ok := x.lockedGet(a, b)\n\tx.mu.RUnlock()\n", "\t_, ok := x.lockedGet(a, b)\n"},
+		{"used as a method value", "func (x *Reg) Has(", "func (r *Reg) Getter() func(string, string) (int, bool) {\n\treturn r.lockedGet\n}\n\nfunc (x *Reg) Has("},
+		{"started as a goroutine", "func (x *Reg) Has(", "func (r *Reg) Warm() {\n\tgo r.lockedGet(\"a\", \"b\")\n}\n\nfunc (x *Reg) Has("},
+		{"lock of another instance held", "\tx.mu.RLock()\n\t_, ok := x.lockedGet(a, b)\n\tx.mu.RUnlock()\n", "\ty := &Reg{}\n\ty.mu.RLock()\n\t_, ok := x.lockedGet(a, b)\n\ty.mu.RUnlock()\n"},
+	}
+	for _, m := range mutants {
+		if !strings.Contains(lsHeldSrc, m.old) {
+			return fmt.Errorf("held helper mutant %q: pattern not found", m.name)
+		}
+		o, err := run(strings.Replace(lsHeldSrc, m.old, m.new, 1))
+		if err != nil {
+			return fmt.Errorf("held helper mutant %q: %v", m.name, err)
+		}
+		bad := false
+		for _, a := range o.accs {
+			if a.field == "byName" && (a.unknown || len(a.locks) == 0) {
+				bad = true
+			}
+		}
+		if !bad {
+			return fmt.Errorf("held helper mutant %q: no unguarded access reported", m.name)
 		}
 	}
 	return nil
